@@ -407,6 +407,7 @@ ViewOf(s, n, now) ==
    dead  |-> [x \in DOMAIN s.dead |-> TRUE],
    sched |-> [x \in SchedOf(s, now) |-> TRUE],
    watch |-> s.watch,
+   fd    |-> [x \in DOMAIN s.fd |-> [n |-> Len(s.fd[x].win), sum |-> SeqSum(s.fd[x].win), last |-> s.fd[x].last]],
    wseq  |-> s.wseq,
    cb    |-> s.cb]
 
